@@ -23,7 +23,7 @@ CHECKS = {
    text="Every mutator of ObservableVector and of the transaction with every in-range argument and with out-of-range indices len, len+1, len+2 (under catch_unwind: must panic, contents unchanged, nobody notified), depth 4 (quick) / 5 (thorough) from initial lengths 0..3, compared call by call with a plain Vec model (return values and contents). Traversal: every decision vector keep/set/remove/set-then-remove/stop over vectors of length 0..4 (5 thorough) through for_each and entries(), directly and inside a transaction: each element visited once in order, index() equals the current position, removal does not skip the successor, contents and emitted diffs equal the model's.",
    note="imbl's own panics count as panics of the mutator"),
  "C09": dict(design="5 (C09)", tech=SEQ,
-   text="Head, Tail and Skip, each with a static limit 0..4, a purely dynamic limit and a dynamic limit with initial value 0..4, fed by an eyeball Observable (subscribe / subscribe_reset) or a queue that delivers every announced value and, unlike a fused stream, records being polled again after its end (reported: found repo fix 724d97a); plain and batched subscriber; capacities 16 and 1 (Reset from lag); eager and manual polling; initial vectors of length 0..3. Every sequence of source mutators, transactions, limit announcements 0..5 and polls to depth 3 (quick) / 4 (thorough), plus limit-source and vector drops on a reduced alphabet to depth 4/5. A transparent tap below the adapter gives one view check per input-item boundary and per Pending against first/last/all-but-first of the input replica under the limit the adapter has seen; at Pending the limit must be the latest announced and the input replica the live vector; every diff must be applicable; the stream ends only after the source has ended, and once the source has ended it hands out what it still holds and ends (never Pending again).",
+   text="Head, Tail and Skip, each with a static limit 0..4, a purely dynamic limit and a dynamic limit with initial value 0..4, fed by an eyeball Observable (subscribe / subscribe_reset) or a queue that delivers every announced value and, unlike a fused stream, records being polled again after its end (reported: found repo fix 724d97a); plain and batched subscriber; capacities 16 and 1 (Reset from lag); eager and manual polling; initial vectors of length 0..3. Every sequence of source mutators, transactions, limit announcements 0..5 and polls to depth 3 (quick) / 4 (thorough), plus limit-source and vector drops on a reduced alphabet to depth 4/5, and vectors of 66 and 131 items with limits around the 64-item chunk boundary (sweep c09-tree, depth 2/3). A transparent tap below the adapter gives one view check per input-item boundary and per Pending against first/last/all-but-first of the input replica under the limit the adapter has seen; at Pending the limit must be the latest announced and the input replica the live vector; every diff must be applicable; the stream ends only after the source has ended, and once the source has ended it hands out what it still holds and ends (never Pending again).",
    note="one open finding (F5, dynamic Tail limit decrease, pinned by a repository test) is recognised by its exact signature; subscriber-stream faults are C05-C08's business and counted as foreign"),
  "C10": dict(design="5 (C10)", tech=SEQ,
    text="Filter and FilterMap (predicate key != 0, every pass/fail pattern of the initial vector up to length 3 and of every inserted item), plain and batched, capacities 16, 2 and 1 so that Resets including Resets to all-rejected contents occur, eager and manual polling; every sequence to depth 3 (quick) / 4 (thorough) on the full alphabet and 5/6 on a reduced one; vectors of 66 and 131 items (beyond one imbl chunk), with 0-2 pop_front calls before anybody subscribes, to depth 2/3 (sweep c10-tree). Checked at every input-item boundary and every Pending: view == passing items (mapped) of the input, in order; diffs applicable; end of stream exactly with the source.",
@@ -32,7 +32,7 @@ CHECKS = {
    text="Sort (Ord on (key,id)), SortBy and SortByKey (keys only, so ties exist) over keys {0,1,2}: every key pattern of the initial vector (length 0..2 quick, 0..3 thorough) and of every inserted/replaced item, plain and batched, capacities 16 and 1, eager and manual; every sequence to depth 3/4 (full alphabet) and 4/5 (reduced, with lag and drop). Oracle at every boundary and Pending: the view is a permutation of the input (multiset on (key,id)) and ordered by the comparison; stability is not demanded.",
    note="one open finding (F7, Truncate forwarded verbatim, pinned by repository tests) is recognised only if the view was correct immediately before the verbatim Truncate (or, in a direct join, if the sort stage's only output for a truncating input is a Truncate); vectors of 66 and 131 items in sweep c11-tree; one configuration per flavour starts from 12003 items of which 12001 are equal (sweep c11-equal-run, found repo fix 35f62b6; a process that dies there is localised and reported like a C20 crash)"),
  "C12": dict(design="5 (C12)", tech=SEQ,
-   text="All 400 chains of two stages over a menu of 20 stage kinds (head/tail/skip static, dynamic via Observable, dynamic via queue, dynamic with initial value; filter, filter_map, sort, sort_by, sort_by_key), both flavours, six initial vectors, full alphabet depth 2 (quick) / 3 (thorough) and reduced alphabet depth 3/4 (incl. capacity 1); chains of three stages (10 kinds quick, 20 thorough) depth 2/3; and the 'adapter itself as observer' form (dynamic head/skip value with the next stage built directly on it, no tap in between; dynamic-with-initial-value head/tail/skip kept as values so that into_parts runs with a non-zero limit). A tap between all stages gives every stage its own input and view replica; every stage is checked against the stage below it from the initial values on. Late stacking: the second stage is built on a dynamic adapter that has already been polled - after a drain (c12-late-stack) and, with manual polls, in the middle of an input item while the adapter still holds a parked second diff (c12-late-stack-mid-item).",
+   text="All 400 chains of two stages over a menu of 20 stage kinds (head/tail/skip static, dynamic via Observable, dynamic via queue, dynamic with initial value; filter, filter_map, sort, sort_by, sort_by_key), both flavours, six initial vectors, full alphabet depth 2 (quick) / 3 (thorough) and reduced alphabet depth 3/4 (incl. capacity 1); chains of three stages (10 kinds quick, 20 thorough) depth 2/3; and the 'adapter itself as observer' form (dynamic head/skip value with the next stage built directly on it, no tap in between; dynamic-with-initial-value head/tail/skip kept as values so that into_parts runs with a non-zero limit). A tap between all stages gives every stage its own input and view replica; every stage is checked against the stage below it from the initial values on. Late stacking: the second stage is built on a dynamic adapter that has already been polled - after a drain (c12-late-stack) and, with manual polls, in the middle of an input item while the adapter still holds a parked second diff (c12-late-stack-mid-item). Six two-stage chains over vectors of 66 and 131 items (c12-tree).",
    note="found the into_parts defects repaired by repo commits e6f750d and cab38c8; F5 and F7 surface in chains with their single-stage signatures"),
  "C13": dict(design="5 (C13)", tech=SEQ,
    text="Batched flavour with multi-operation transactions: every fixed-parameter adapter (static head/tail/skip 0..3, filter, filter_map, sort*) and 49 fixed two-stage chains run next to the same chain on a plain subscriber of the same vector; whenever both are quiescent (also at the end of the streams after the vector was dropped) the flattened diff lists must be identical; no batch may be empty; after every batch (one source batch or one limit change) the view must equal the adapter's view of its input, which below the chain is a state the vector had between top-level operations. Dynamic adapters and lag (capacity 1) are covered in batched flavour without twin. Depth 3/4 (full alphabet), 4/5 (reduced).",
